@@ -9,7 +9,7 @@ from s3transfer.bandwidth import LeakyBucket, RequestExceededException, RequestT
 
 MAX = 1000
 AMTS = [0, 1, 800, 5000]
-DTS = [0.5, 4.0]
+DTS = [0.0, 0.5, 4.0]      # 0.0: two consumptions in the same clock tick
 TOKS = [0, 1]
 
 
@@ -34,7 +34,7 @@ def run(ops):
                     return f'consume returned {r} for {amt}'
                 if ti in shares:
                     del shares[ti]
-                elif last is not None:
+                elif last is not None and Clock.now > last:
                     if 0.8 * amt / (Clock.now - last) > MAX * (1 + 1e-9):
                         return f'admitted {amt} bytes after {Clock.now - last}s: above the smoothing allowance'
             except RequestExceededException as e:
@@ -49,6 +49,8 @@ def run(ops):
                 continue
             b.unschedule(toks[ti])
             shares.pop(ti, None)
+        if b._rate_tracker._current_rate == float('inf'):
+            return 'the tracked consumption rate became infinite (it never decays: every later read is throttled)'
         if abs(sch._total_wait - sum(shares.values())) > 1e-9:
             return f'total wait {sch._total_wait} != sum of scheduled shares {sum(shares.values())}'
         if set(sch._tokens_to_scheduled_consumption) != {toks[i] for i in shares}:
